@@ -5,6 +5,7 @@
   heartbeats, end of stream), of any length.
 -/
 import Amqp.Conn
+import Amqp.CloseFlush
 
 namespace Amqp.Conn
 open Amqp.Gen.Fsm
@@ -469,3 +470,27 @@ example :
   decide +kernel
 
 end Amqp.Conn
+
+namespace Amqp.CloseFlush
+
+theorem source_keeps_verdict_and_drains : verdictKept = true ∧ drainsThenCloses = true := by decide
+
+/-- **queued frames are flushed before the close.**  Whatever the sessions have queued when the peer's
+    close is taken up — any number of frames, of any sessions — all of it is written, in order, and
+    the answering close is the last frame. -/
+theorem peer_close_flushes (queued : List Nat) :
+    answer verdictKept drainsThenCloses queued = queued.map .frame ++ [.close] := by
+  simp [answer, source_keeps_verdict_and_drains.1, source_keeps_verdict_and_drains.2]
+
+theorem close_is_last_after_flush (queued : List Nat) :
+    (answer verdictKept drainsThenCloses queued).getLast? = some .close ∧
+    ((answer verdictKept drainsThenCloses queued).filter (· == .close)).length = 1 := by
+  rw [peer_close_flushes]
+  constructor
+  · simp
+  · simp [List.filter_append, List.filter_map]
+
+/-- the other order loses frames: propagating the verdict first answers with the close alone -/
+theorem early_verdict_drops_the_queue : answer false true [3, 4] = [.close] := by decide
+
+end Amqp.CloseFlush
